@@ -19,7 +19,7 @@ drv_codec c12 : script lines
     <hex input> | [@k ]<op> ; [@k ]<op> ; ...
   op = bool byte i16 i32 i64 v7 bytes str raw<n>;  `@k` = the call is made on a fresh stream positioned at k
   output:  <out> p=<pos> l=<len> a=<0|1> ; ...
-  out = ok:<value> | err:<Enum> | panic ; a=1 iff the ghost allocation exceeds 2*(remaining input) + 64
+  out = ok:<value> | err:<Enum> | panic ; a=1 iff the ghost allocation exceeds 2*(remaining input) + 4096
 
 drv_codec spec : script lines `leb <nat>` / `le <w> <nat>`  → hex of the specification encoders (used by tests only)
 -/
@@ -240,7 +240,7 @@ def showC12 (buf : List Byte) (pos0 : Nat) (o : Op) (r : Res Val) : String :=
     | .raw _, .ok (.raw l) => s!"ok:{l.length}:" ++ hexOf l
     | _, x => showOut x
   let remaining := buf.length - pos0
-  let a := if r.alloc > 2 * remaining + 64 then "1" else "0"
+  let a := if r.alloc > 2 * remaining + 4096 then "1" else "0"
   s!"{out} p={r.pos} l={buf.length} a={a}"
 
 def runC12 (buf : List Byte) : Nat → List (Option Nat × Op) → List String
